@@ -139,6 +139,11 @@ pub struct HandlerRunner {
     cur_wru_finished: bool,
     /// (node, peer, address) -> sequence number of the record the application supplied as known
     known_seq: HashMap<(u64, u64, SocketAddr), u64>,
+    /// (node, destination) -> key of the last message the node sealed for that destination
+    last_seal: HashMap<(u64, SocketAddr), [u8; 16]>,
+    /// responses the application handed over that produced no datagram: (node, destination, key
+    /// the node had used for that destination before, request id)
+    withheld: Vec<(u64, SocketAddr, [u8; 16], u64)>,
     /// whether the datagram being delivered carries a ciphertext that verifies under a known key
     cur_authentic: bool,
     ttl_ms: u64,
@@ -184,6 +189,8 @@ impl Default for HandlerRunner {
             cur_hs_unchallenged: false,
             cur_wru_finished: false,
             known_seq: HashMap::new(),
+            last_seal: HashMap::new(),
+            withheld: Vec::new(),
             cur_authentic: true,
             ttl_ms: 86_400_000,
             old_keys_mark: 0,
@@ -812,6 +819,27 @@ impl HandlerRunner {
                             }
                         }
                         self.ledger.sealed.entry((k, pt)).or_insert(from);
+                        // (a retransmission repeats bytes sealed earlier: it says nothing about the keys held now)
+                        let fresh_bytes = !self.wire.iter().any(|w| w.from_idx == from && w.bytes == bytes);
+                        if let (Some(d), true) = (self.wire_dst_hint, fresh_bytes) {
+                            // C20 / C04: a response that produced no datagram was withheld although the
+                            // session was alive if the node goes on sealing under the very same key
+                            // (keys only come from handshakes: a session that was gone cannot return
+                            // with its old key)
+                            let mut keep = Vec::new();
+                            for w in std::mem::take(&mut self.withheld) {
+                                if w.0 == from && w.1 == d {
+                                    if w.2 == k {
+                                        out.push(format!("!MON C20 response-withheld-although-the-session-was-alive node={} rid={}", from, w.3));
+                                        out.push(format!("!MON C04 response-withheld-although-the-session-was-alive node={} rid={}", from, w.3));
+                                    }
+                                } else {
+                                    keep.push(w);
+                                }
+                            }
+                            self.withheld = keep;
+                            self.last_seal.insert((from, d), k);
+                        }
                         // C15: a packet made after an idle period longer than the session timeout
                         // must not be sealed under a key from before that period
                         if let Some(pos) = self.keys.iter().position(|(kb, _)| *kb == k) {
@@ -1257,6 +1285,11 @@ impl HandlerRunner {
                     out.insert(o0, format!("!MON C04 response-put-on-the-wire-more-than-once node={} rid={} copies={}", xidx0, rid, copies));
                 }
                 if copies == 1 { stats.bump("h.response-sent-once"); }
+                if copies == 0 {
+                    if let Some(k) = self.last_seal.get(&(xidx0, dst_addr)).copied() {
+                        self.withheld.push((xidx0, dst_addr, k, rid));
+                    }
+                }
             }
             // network delivers wire datagram #k: `hdel K` | `hdel K SRCADDRIDX` (spoofed source) |
             // `hdel K SRCADDRIDX TONODE` (redirected)
